@@ -226,16 +226,57 @@ def stored_callable(F, f, push_node, q, R, _depth=0):
     from rules_order import dependency_closure
     dep = dependency_closure(f, push_node)
     binds = [d for d in dep if f.nodes[d] and f.nodes[d]['k'] == 'call' and f.nodes[d].get('n') == 'bind']
-    if not binds and _depth < 2:
-        # the pushed value is handed in by the caller (a push helper extracted from the role functions): judge it at the call sites
-        pnames = {p['n'] for p in f.d.get('params', [])}
-        if any(f.nodes[d] and f.nodes[d]['k'] == 'ref' and f.nodes[d].get('dk') == 'param' and f.nodes[d]['n'] in pnames for d in dep):
-            sites = [(g, i) for g in F.funcs if g.blocks for i, n in g.calls() if n.get('fk') == f.k]
-            if sites:
-                for g, i in sites: stored_callable(F, g, i, q, R, _depth + 1)
-                return
     ok = False; why = 'no bind(...) in the pushed value'
+    if not binds:
+        # another kind of callable (a functor object, a closure): judged by how it holds the event and by what its call operator does -
+        # the event is a member BY VALUE of the submitted event's (decayed) type (a reference / pointer member dangles when the
+        # submitted object dies before the drain), the call operator hands exactly that member to process_event_internal of the stored
+        # machine, with the source mark of this queue.  A form that cannot be read this way is not decided (no obligation, no anchor
+        # beyond the one above: nothing is reported for it).
+        from facts import strip_cvref
+        ptypes = {strip_cvref(F.strs[p['t']]) for p in f.d.get('params', [])}
+        need = 'EVENT_SOURCE_MSG_QUEUE' if q == 'MSGQ' else 'EVENT_SOURCE_DEFERRED'
+        for d in dep:
+            x = f.nodes[d]
+            if not x or not isinstance(x.get('t'), int): continue
+            tname = strip_cvref(F.strs[x['t']])
+            rec = F.rec_by_type(tname)
+            if not rec or not rec.get('fields') or not rec['loc'].startswith('boost/msm/'): continue
+            if 'function<' in tname or rec['n'] in ('state_machine', 'state_machine_base'): continue
+            evf = [fl for fl in rec['fields'] if strip_cvref(F.strs[fl['t']].rstrip('*').strip()) in ptypes]
+            if not evf: continue
+            byref = [fl for fl in evf if F.strs[fl['t']].strip().endswith('&') or F.strs[fl['t']].strip().endswith('*')]
+            if byref:
+                why = 'the stored callable %s holds the event in member %s of type %s: a reference / pointer to the caller\'s object, not a copy - it dangles when the submitted object dies before the queue is drained' % (rec['n'], byref[0]['n'], F.strs[byref[0]['t']])
+                R.ob('C04.target', False, {'func': f.q, 'queue': q, 'callable': rec['n']})
+                R.find('C04.target', f, 'stored-callable:' + q, 'element pushed on the %s: %s' % (q, why), where=f.at(push_node))
+                return
+            ops = [g for g in F.funcs if g.n == 'operator()' and g.blocks and strip_cvref(F.class_type(g) or '') == tname]
+            verdict = None
+            for g in ops:
+                for ci, cn in g.calls():
+                    if cn.get('n') != 'process_event_internal' or not cn.get('args'): continue
+                    a0dep = dependency_closure(g, cn['args'][0])
+                    ev_ok = any(g.nodes[z] and g.nodes[z]['k'] == 'mem' and g.nodes[z].get('n') == evf[0]['n'] for z in a0dep)
+                    mark_ok = len(cn['args']) >= 2 and need in g.expr(cn['args'][1])
+                    verdict = (ev_ok and mark_ok, 'functor %s: passes its event member %s, source mark %s' % (rec['n'], 'ok' if ev_ok else 'NO', 'ok' if mark_ok else 'MISSING (%s)' % (g.expr(cn['args'][1]) if len(cn['args']) >= 2 else 'no source argument')))
+            if verdict is not None:
+                R.ob('C04.target', verdict[0], {'func': f.q, 'queue': q, 'callable': verdict[1]})
+                if not verdict[0]: R.find('C04.target', f, 'stored-callable:' + q, 'element pushed on the %s: %s' % (q, verdict[1]), where=f.at(push_node))
+                return
+        if _depth < 2:
+            # the pushed value is handed in by the caller (a push helper extracted from the role functions): judge it at the call sites
+            pnames = {p['n'] for p in f.d.get('params', [])}
+            if any(f.nodes[d] and f.nodes[d]['k'] == 'ref' and f.nodes[d].get('dk') == 'param' and f.nodes[d]['n'] in pnames for d in dep):
+                sites = [(g, i) for g in F.funcs if g.blocks for i, n in g.calls() if n.get('fk') == f.k]
+                if sites:
+                    for g, i in sites: stored_callable(F, g, i, q, R, _depth + 1)
+                    return
+        # unknown form
+        R.note('C04.target: the element pushed on the %s in %s is neither a bind(...) nor a functor this rule can read; not decided' % (q, f.q))
+        return
     for b in binds:
+
         bn = f.nodes[b]; args = bn['args']
         if len(args) < 3: why = 'bind has too few arguments'; continue
         a0 = f.nodes[args[0]]; a1 = f.nodes[args[1]]; a2 = f.nodes[args[2]]
